@@ -220,10 +220,17 @@ func FieldAtoms(depth int) []Atom {
 			if d := DefaultFor(s); d != nil {
 				defs = append(defs, d)
 			}
-			for _, d := range defs {
+			if s.Type.Name == "double" {
+				// defaults a float32 cannot hold, of tiny / huge magnitude, and integral
+				defs = append(defs, Dbl(3.141592653589793), Dbl(0.000001), Dbl(16777217), Dbl(5e21), Dbl(4))
+			}
+			for di, d := range defs {
 				f := &Field{ID: 1, Name: "f", Req: req, Type: s.Type, Default: d}
 				st := &Decl{Struct: &Struct{Kind: "struct", Name: "Holder", Fields: []*Field{f, {ID: 2, Name: "tail", Req: "default", Type: T("i32")}}}}
 				name := fmt.Sprintf("field/%s/%s/%s", req, s.Type.String(), map[bool]string{true: "default", false: "nodefault"}[d != nil])
+				if di >= 2 {
+					name += "-" + d.Canon()
+				}
 				out = append(out, Atom{Name: name, Class: "field", Prog: MainFile(s.Include, s.Needs, st)})
 			}
 		}
@@ -268,6 +275,15 @@ func DeclAtoms() []Atom {
 		{"enum-ident", T("Color"), Ident("Color.RED"), []*Decl{localEnum()}},
 		{"ident-true-prefix", T("i32"), Ident("trueNorth"), []*Decl{{Const: &Const{Name: "trueNorth", Type: T("i32"), Value: Int(1)}}}},
 		{"nested-list", List(List(T("i32"))), LList(LList(Int(1)), LList()), nil},
+		// quote characters of either kind at the edges of a string literal
+		{"string-single-quoted-inside", T("string"), Str(`'single' inside`), nil}, {"string-ends-with-double-quote", T("string"), Str(`say "hi"`), nil},
+		{"string-only-single-quote", T("string"), Str(`'`), nil}, {"string-only-double-quote", T("string"), Str(`"`), nil},
+		{"string-fully-double-quoted", T("string"), Str(`"quoted"`), nil}, {"string-backslash", T("string"), Str(`a\b`), nil},
+		// doubles: more digits than a float32 holds, integers above 2^24, tiny and huge magnitudes
+		{"double-pi", T("double"), Dbl(3.141592653589793), nil}, {"double-0.1+0.2", T("double"), Dbl(0.30000000000000004), nil},
+		{"double-2^24+1", T("double"), Dbl(16777217), nil}, {"double-1e-6", T("double"), Dbl(0.000001), nil}, {"double-1e-5", T("double"), Dbl(0.00001), nil},
+		{"double-5e21", T("double"), Dbl(5e21), nil}, {"double-1e-50", T("double"), Dbl(1e-50), nil}, {"double-integral", T("double"), Dbl(3), nil},
+		{"double-list", List(T("double")), LList(Dbl(0.000001), Dbl(3.141592653589793), Dbl(2)), nil},
 	}
 	for _, c := range consts {
 		add("const/"+c.n, "const", false, c.needs, &Decl{Const: &Const{Name: "K", Type: c.t, Value: c.v}})
@@ -319,6 +335,11 @@ func DeclAtoms() []Atom {
 			}
 		}
 	}
+	// method names that the Go generator has to mangle (initialisms, underscores, constructor-like)
+	add("service/method-names", "service", false, nil, &Decl{Service: &Service{Name: "Svc", Methods: []*Method{
+		{Name: "URLFor", Ret: T("string"), Args: []*Field{arg(1, "i32")}}, {Name: "IDOf", Ret: T("i32"), Args: []*Field{arg(1, "string")}},
+		{Name: "HTTPNotify", Oneway: true, Args: []*Field{arg(1, "i32")}}, {Name: "get_url", Ret: T("string")}, {Name: "fetchHttpStatus", Ret: T("i32")},
+		{Name: "uuidValid", Ret: T("bool"), Args: []*Field{arg(1, "string")}}, {Name: "x", Ret: T("i32")}}}})
 	add("service/oneway", "service", false, nil, &Decl{Service: &Service{Name: "Svc", Methods: []*Method{{Name: "fire", Oneway: true, Args: []*Field{arg(1, "i32")}}, {Name: "ping"}}}})
 	add("service/empty", "service", false, nil, &Decl{Service: &Service{Name: "Svc"}})
 	add("service/extends-local", "service", false, nil,
